@@ -166,6 +166,10 @@ func (e *Engine) intrinsic(st *State, fn *ssa.Function, full string, args []Valu
 		case "vfYield":
 			return nil, true
 		case "vfRunGoroutines":
+			if e.GoPolicy == "coro" {
+				e.runCoros(st)
+				return nil, true
+			}
 			e.runDeferredGo(st)
 			return nil, true
 		case "vfInfeasibleOK":
